@@ -1,9 +1,13 @@
 pub mod sweep;
 pub mod c01;
 pub mod c02;
+pub mod c07;
+pub mod c08;
 pub mod c10;
 pub mod c12;
 pub mod c14;
+pub mod c19;
+pub mod c20;
 
 use crate::report::{Acc, Tier};
 use serde_json::Value;
@@ -15,8 +19,12 @@ pub fn table() -> Vec<(&'static str, CheckFn, ReplayFn)> {
     vec![
         ("C01", c01::check, c01::replay),
         ("C02", c02::check, c02::replay),
+        ("C07", c07::check, c07::replay),
+        ("C08", c08::check, c08::replay),
         ("C10", c10::check, c10::replay),
         ("C12", c12::check, c12::replay),
         ("C14", c14::check, c14::replay),
+        ("C19", c19::check, c19::replay),
+        ("C20", c20::check, c20::replay),
     ]
 }
